@@ -148,6 +148,21 @@ func runC19(c *mon.Ctx) {
 		ksp := NewKeyedSP(base, kc, signer)
 		ksp.Clk.Set(now)
 		sp := ksp.SP
+		if r.IntN(4) == 0 {
+			// the application asked for metadata once before its final keys were in place (nothing was signed yet) - during
+			// start-up, say - and configures the keys afterwards: what is published then is about the keys that are there now
+			early, eclk, _ := NewSP(base, signer)
+			eclk.Set(now)
+			early.SignAuthnRequests = true
+			mon.Guard(func() {
+				early.SPKeyStore = &RSAKeyStore{C: sim.Wide(sim.K("spenc2"), base)}
+				early.Metadata()
+				early.MetadataWithSLO(3)
+			})
+			early.SPKeyStore, early.SPSigningKeyStore = sp.SPKeyStore, sp.SPSigningKeyStore
+			copyOverrides(early, ksp)
+			ksp.SP, ksp.Clk, sp = early, eclk, early
+		}
 		sp.ValidateEncryptionCert = r.IntN(2) == 0
 		chain := r.IntN(5) == 0
 		if chain {
